@@ -119,6 +119,15 @@ public:
         }
     }
 
+#if defined(APACHE_XALAN_C_VERIF)
+    // verification hook: number of objects currently handed out
+    unsigned long
+    verifDepth() const
+    {
+        return static_cast<unsigned long>(m_numObjectsOnStack);
+    }
+#endif
+
     // Functors for various operations...
     CreateFunctorType   m_createFunctor;
 
